@@ -14,5 +14,6 @@ open(p,'w').write(s2)
 PY
 [ $? -eq 0 ] || { rm -rf "$D"; exit 3; }
 (cd "$D" && GOFLAGS=-mod=mod GOPROXY=off GOSUMDB=off GOTOOLCHAIN=local go build ./... ) || echo "MUT: does not compile"
-ADCHECK_REPO="$D" /verif/check "$ID" quick 2>&1 | grep -v "^  C" | head -${MUT_LINES:-8}
-rm -rf "$D"
+V=$(mktemp -d /tmp/mutv.XXXXXX); cp /verif/known_findings.json "$V/"; mkdir -p "$V/evidence"
+/verif/bin/adcheck -property "$ID" -tier quick -repo "$D" -verif "$V" 2>&1 | grep -v "^  C" | head -${MUT_LINES:-8}
+rm -rf "$D" "$V"
